@@ -122,7 +122,8 @@ Definition import_value (v : pvalue) : result hvalue :=
 Definition dec_is_int (d : dec) : bool := if 0 <=? dexp d then true else dint d mod pow10 (- dexp d) =? 0.
 
 Definition export_num (d : dec) : result pnum :=
-  if dec_is_int d then (if in_i64 (dtrunc d) then Ok (NInt (dtrunc d)) else Error EOutOfBounds) else Ok (NDec d).
+  (* int64 variant only for integers that fit 64 bits; every other number takes the string variant (repair ab942f1) *)
+  if dec_is_int d && in_i64 (dtrunc d) then Ok (NInt (dtrunc d)) else Ok (NDec d).
 
 (* export_param_value; None = the parameter goes un-set *)
 Definition export_value (v : hvalue) : result (option pvalue) :=
